@@ -120,7 +120,7 @@ def extra_checks(tier, seed):
     cases = []
     for i in range(n):
         rng = random.Random('C12h-%d-%d' % (seed, i))
-        c = hsm.gen_case(rng, hist_len=1, p_parallel=0.35, single_scope=(i % 3 != 0))
+        c = hsm.gen_case(rng, hist_len=1, p_parallel=0.35, single_scope=(i % 3 != 0), p_enum=0.15)
         c['env'] = dict(default=c['env']['default'], bypos={}, bycb={k: v for k, v in c['env']['bycb'].items() if v[1] is None})
         ne = 1 + max([e for e, _ in c['machine']['events']] + [e for _, d in hsm.all_defs(c['machine']) for e, _ in d['events']] + [0])
         hist = []
